@@ -433,6 +433,50 @@ pub fn run(a: &Args) {
 				rep.sample(case);
 			}
 		}
+		// ---------------- a request in flight while the session key is replaced
+		// Client A's authenticated request is being served (the node is slow) when another party performs the
+		// plaintext key exchange. A's reply must be encrypted under the key A's request was made under.
+		if let Some(k1) = cl.key {
+			rep.eval();
+			let n = cl.nonce();
+			let req = envelope(&k1, &json!({"jsonrpc":"2.0","method":"retrieve_summary_info","params":{"token": null, "refresh_from_node": true, "minimum_confirmations": 1},"id":3}), n, json!(3));
+			{
+				let mut st = w.node.st.lock();
+				st.hold = true;
+				st.waiting = 0;
+			}
+			let mut other = Client { sk: SecretKey::from_slice(&static_secp_instance().lock(), &[2u8; 32]).unwrap(), key: None, old_keys: vec![], counter: 1u64 << 60 };
+			let (reply_a, k2) = std::thread::scope(|sc| {
+				let h = &handler;
+				let t = sc.spawn(move || post(h, req.to_string().into_bytes()).ok().and_then(|b| serde_json::from_slice::<Value>(&b).ok()).unwrap_or(Value::Null));
+				// wait until A's request is inside its node call
+				let mut spins = 0;
+				while w.node.st.lock().waiting == 0 && spins < 3000 {
+					std::thread::sleep(std::time::Duration::from_millis(1));
+					spins += 1;
+				}
+				let pk = other.new_secret(&mut rng);
+				let init = json!({"jsonrpc":"2.0","method":"init_secure_api","params":{"ecdh_pubkey": pk},"id":1});
+				let r: Value = post(h, init.to_string().into_bytes()).ok().and_then(|b| serde_json::from_slice(&b).ok()).unwrap_or(Value::Null);
+				let k2 = r["result"]["Ok"].as_str().and_then(|their| other.derive(their));
+				w.node.st.lock().hold = false;
+				(t.join().unwrap_or(Value::Null), k2)
+			});
+			w.node.st.lock().hold = false;
+			let r = &reply_a["result"]["Ok"];
+			let (nonce, body) = (r["nonce"].as_str().unwrap_or(""), r["body_enc"].as_str().unwrap_or(""));
+			let under_k1 = open(&k1, nonce, body).is_some();
+			let under_k2 = k2.map(|k| open(&k, nonce, body).is_some()).unwrap_or(false);
+			let case = json!({"job":"c13","kind":"request in flight while another party performs the key exchange", "reply": trunc(&reply_a.to_string(), 300)});
+			if under_k2 && !under_k1 {
+				rep.violation("C13|reply-encrypted-under-a-key-the-request-was-not-made-under|key-exchange-while-a-request-is-in-flight", "the reply to a request authenticated under the session key K1 was encrypted under K2, the key another party negotiated while the request was being served: it opens with K2 and not with K1", case);
+			} else if under_k1 {
+				rep.count("in-flight-request-answered-under-its-own-key");
+			} else {
+				rep.count(&format!("in-flight-request:{}", if reply_a["error"].is_null() && r.is_null() { "no-reply" } else { "answered-with-an-error" }));
+			}
+			cl.key = k2;
+		}
 	}
 	rep.write(&a.out);
 }
